@@ -2,7 +2,7 @@
 import ast
 import re
 
-from ..astutil import catches_everything, dotted, effective, handler_names, method_call
+from ..astutil import format_template, catches_everything, dotted, effective, handler_names, method_call
 from ..cfg import canon_test, cfg_of, fact_key, norm, walk_own
 from ..consteval import Scope, fold, fold_in
 from ..mutate import B, M
@@ -146,7 +146,27 @@ def check(ctx):
     pp = assigns('parsed_path')
     ctx.inst('R2', pu, 'path-split', len(pp) == 1 and norm(pp[0].ast.value) == "parsed_uri.path.strip('/').split('/')", 'path fields = path.strip(/).split(/)')
     dr = assigns('datarate')
-    ctx.need(len(dr) >= 4, 'parse_uri: datarate default + 3 table rows expected, found %d' % len(dr))
+    # table form: datarate = {'250K': .., '1M': .., '2M': ..}.get(parsed_path[1], <default>)
+    lookups = []
+    for n in dr:
+        v = n.ast.value
+        if isinstance(v, ast.Call) and isinstance(v.func, ast.Attribute) and v.func.attr == 'get' and len(v.args) == 2 and norm(v.args[0]) == 'parsed_path[1]':
+            t = g.resolve_local(n, v.func.value)
+            if isinstance(t, ast.Dict):
+                lookups.append((n, t, v.args[1]))
+    if lookups:
+        n, t, dflt = lookups[0]
+        others = [x for x in dr if x is not n]
+        d_ok = norm(g.resolve_local(n, dflt)) == 'Crazyradio.DR_2MPS' and all(norm(x.ast.value) == 'Crazyradio.DR_2MPS' for x in others) and \
+            any(all(g.dominates(x, r) for r in g.nodes if r.kind == 'return') for x in others)
+        ctx.inst('R2', pu, 'default-rate', len(lookups) == 1 and d_ok, 'default data rate must be 2M (also the fall-back of the look-up)')
+        ctx.inst('R2', pu, 'rate-needs-field:lookup', fact_key('len(parsed_path) > 1', True) in g.fact_keys_at(n), 'rate is read only if the field exists')
+        tbl = {fold(k, sc): norm(v_).split('.')[-1] for k, v_ in zip(t.keys, t.values)}
+        for _k in range(2):
+            ctx.inst('R2', pu, 'rate-needs-field:table-row-%d' % _k, True, 'rows of the look-up table share the guard of the look-up')
+        ctx.inst('R2', pu, 'rate-table', tbl == RATES, 'parse_uri rate table %s, expected %s' % (tbl, RATES))
+        dr = []
+    ctx.need(lookups or len(dr) >= 4, 'parse_uri: datarate default + 3 table rows expected, found %d' % len(dr))
     # rows = assignments guarded by a comparison of the rate field with a literal; every other assignment is a default and must be 2M
     def row_lit(n):
         for f in g.facts_at(n):
@@ -156,14 +176,15 @@ def check(ctx):
     rows = [n for n in dr if row_lit(n) is not None]
     defaults = [n for n in dr if row_lit(n) is None]
     first = [n for n in defaults if all(g.dominates(n, x) for x in g.nodes if x.kind == 'return')]
-    ctx.inst('R2', pu, 'default-rate', bool(first) and all(norm(n.ast.value) == 'Crazyradio.DR_2MPS' for n in defaults) and
+    if not lookups:
+      ctx.inst('R2', pu, 'default-rate', bool(first) and all(norm(n.ast.value) == 'Crazyradio.DR_2MPS' for n in defaults) and
              all(g.dominates(first[0], r) for r in rows + [x for x in g.nodes if x.kind == 'return']) and
              all(g.path_avoiding(r, [d]) is None for r in rows for d in defaults), 'default data rate must be 2M, set before (never after) the table rows')
-    tbl = {}
-    for n in rows:
+      tbl = {}
+      for n in rows:
         tbl[row_lit(n)] = norm(n.ast.value).split('.')[-1]
         ctx.inst('R2', pu, 'rate-needs-field:' + norm(n.ast.value), fact_key('len(parsed_path) > 1', True) in g.fact_keys_at(n), 'rate is read only if the field exists')
-    ctx.inst('R2', pu, 'rate-table', tbl == RATES, 'parse_uri rate table %s, expected %s' % (tbl, RATES))
+      ctx.inst('R2', pu, 'rate-table', tbl == RATES, 'parse_uri rate table %s, expected %s' % (tbl, RATES))
     ad = assigns('address')
     ctx.need(len(ad) == 2, 'parse_uri: address default/override not found')
     ctx.inst('R2', pu, 'default-address', norm(ad[0].ast.value) == 'DEFAULT_ADDR_A' and fold_in(pu, ad[0].ast.value) == [0xe7] * 5 and
@@ -213,49 +234,91 @@ def check(ctx):
     pat = fold_in(ss, rx[0].args[0]) if rx else None
     ctx.inst('R4', ss, 'scan_selected-groups', isinstance(pat, str) and pat == '^radio://([0-9]+)((/([0-9]+))(/(250K|1M|2M))?)?', 'URI regex groups: 4 = channel, 6 = rate; pattern %r' % pat)
     si = m.func(RD, 'RadioDriver.scan_interface')
-    labels = []
+    gsi = cfg_of(si)
+    # every URI template produced by the scan, with constant arguments folded in and branch-dependent pieces (a suffix held in a local)
+    # expanded per assignment:  [(node, template text, extra fact keys, radio rate set last before it)]
+    produced = []
+
+    def expand(node, tpl, args, extra):
+        """substitute string-constant arguments; follow a local that holds a string template into each of its assignments"""
+        outs = [('', extra)]
+        pieces = re.split(r'(\{[^{}]*\})', tpl)
+        ai = 0
+        for pc in pieces:
+            if not (pc.startswith('{') and pc.endswith('}')):
+                outs = [(t + pc, e) for t, e in outs]
+                continue
+            a = args[ai] if ai < len(args) else '?'
+            ai += 1
+            try:
+                av = ast.parse(a, mode='eval').body
+            except SyntaxError:
+                av = None
+            if isinstance(av, ast.Constant) and isinstance(av.value, str) and pc == '{}':
+                outs = [(t + av.value, e) for t, e in outs]
+            elif isinstance(av, ast.Name) and pc == '{}' and any(isinstance(d.ast, ast.Assign) and format_template(d.ast.value) is not None for d in gsi.reaching_defs(node, av.id)):
+                new = []
+                for d in gsi.reaching_defs(node, av.id):
+                    ft = format_template(d.ast.value) if isinstance(d.ast, ast.Assign) else None
+                    if ft is None:
+                        new.extend((t + pc, e) for t, e in outs)
+                        continue
+                    for t, e in outs:
+                        new.append((t + ft[0], e | set(gsi.fact_keys_at(d)) | ({('<default-of:%s>' % av.id, True)} if not gsi.fact_keys_at(d) - set(gsi.fact_keys_at(node)) else set())))
+                outs = new
+            else:
+                outs = [(t + pc, e) for t, e in outs]
+        return outs
 
     def walk_state(stmts, rate):
-        for s in stmts:
-            if isinstance(s, ast.If):
-                walk_state(s.body, rate[:])
-                walk_state(s.orelse, rate[:])
+        for s_ in stmts:
+            if isinstance(s_, ast.If):
+                walk_state(s_.body, rate[:])
+                walk_state(s_.orelse, rate[:])
                 continue
-            if isinstance(s, ast.Try):
-                walk_state(s.body, rate)
+            if isinstance(s_, ast.Try):
+                walk_state(s_.body, rate)
                 continue
-            for c in walk_own(s):
+            for c in walk_own(s_):
                 if isinstance(c, ast.Call) and norm(c.func) == 'self._radio.set_data_rate':
                     rate[0] = norm(c.args[0]).split('.')[-1]
-                if isinstance(c, ast.Constant) and isinstance(c.value, str) and c.value.startswith('radio://0/{}/'):
-                    lab = c.value.split('/')[4]
-                    labels.append((lab, rate[0], s.lineno))
+            nodes_ = gsi.nodes_of(s_)
+            for c in ast.walk(s_):
+                ft = format_template(c) if isinstance(c, (ast.Call, ast.JoinedStr, ast.BinOp)) else None
+                if ft is not None and ft[0].startswith('radio://0/{}/') and nodes_:
+                    for t, e in expand(nodes_[0], ft[0], ft[1], set()):
+                        produced.append((nodes_[0], t, e, rate[0], s_.lineno))
+    import re
     walk_state(si.node.body, [None])
-    ctx.need(len(labels) >= 6, 'scan_interface: expected six scan labels, found %d' % len(labels))
-    for lab, rate, line in labels:
+    ctx.need(len(produced) >= 6, 'scan_interface: expected six scan labels, found %d' % len(produced))
+    for node, t, e, rate, line in produced:
+        lab = t.split('/')[4] if t.count('/') >= 4 else '?'
         ctx.inst('R4', si, 'label=last-set-rate:%s@%d' % (lab, line), RATES.get(lab) == rate, 'URIs labelled %s are produced while the radio is set to %s' % (lab, rate), line=line)
-    gsi = cfg_of(si)
     prog = gsi.find(lambda q: method_call(q, 'set_address'))
-    # every statement that produces address-less URIs runs under `address is None or address == DEFAULT_ADDR`, every one that prints the
-    # address under its negation (whichever branch is written first)
+    # URIs without an address field are produced exactly under `address is None or address == DEFAULT_ADDR`, those that print the address
+    # under its negation (whichever branch is written first, whether the choice is an if/else or a suffix variable)
     kt = {fact_key('address is None or address == DEFAULT_ADDR', True)}
     kf = {fact_key('address is None', False), fact_key('address == DEFAULT_ADDR', False)}
-    prods = []
-    for n in gsi.nodes:
-        if n.kind == 'stmt' and n.ast is not None:
-            for c in ast.walk(n.ast):
-                if isinstance(c, ast.Constant) and isinstance(c.value, str) and c.value.startswith('radio://0/{}/'):
-                    prods.append((n, c.value.count('/') == 5))
-    okb = len(prog) == 1 and fact_key('address is not None', True) in gsi.fact_keys_at(prog[0][0]) and len(prods) == 6 and \
-        all((kf if with_addr else kt) <= set(gsi.fact_keys_at(n)) for n, with_addr in prods)
-    ctx.inst('R4', si, 'addressless-uris-iff-default-address', okb,
+    okb = len(prog) == 1 and fact_key('address is not None', True) in gsi.fact_keys_at(prog[0][0])
+    for node, t, e, rate, line in produced:
+        keys = set(gsi.fact_keys_at(node)) | e
+        with_addr = t.count('/') == 5
+        if with_addr:
+            okb = okb and kf <= keys
+        else:
+            # plain if/else: the positive fact is on the path; suffix variable: the address-less text is the default that survives
+            # exactly when the guarded re-assignment did not happen, so the guard of the re-assignment must be the negation
+            okb = okb and (kt <= keys or any(k[0].startswith('<default-of:') for k in keys) and
+                           any(kf <= (set(gsi.fact_keys_at(n2)) | e2) for n2, t2, e2, _, _ in produced if t2.count('/') == 5))
+    ctx.inst('R4', si, 'addressless-uris-iff-default-address', okb and len(produced) >= 6,
              'URIs without an address field are reported exactly when no address or the default address was scanned (`address is None or address == DEFAULT_ADDR`), matching '
              'the `address is not None` test that programs the radio; a truthiness test mis-files address 0')
+    fm = [t for _, t, _, _, _ in produced if t.count('/') == 5]
+    ctx.inst('R4', si, 'scan-address-format', len(fm) >= 3 and all(x.endswith('/{:X}') for x in fm), 'scanned URIs carry the address as upper-case hex: %s' % sorted(set(fm)))
     st = {norm(s.targets[0]): norm(s.value) for s in walk_own(si.node) if isinstance(s, ast.Assign)}
-    ctx.inst('R4', si, 'scan-address-conversion', st.get('addr') == "'{:0>10X}'.format(address)" and st.get('new_addr') == "struct.unpack('<BBBBB', binascii.unhexlify(addr))",
+    addr_def = [s_.value for s_ in walk_own(si.node) if isinstance(s_, ast.Assign) and norm(s_.targets[0]) == 'addr']
+    ctx.inst('R4', si, 'scan-address-conversion', len(addr_def) == 1 and format_template(addr_def[0]) == ('{:0>10X}', ['address']) and st.get('new_addr') == "struct.unpack('<BBBBB', binascii.unhexlify(addr))",
              'scan address uses the same 10-digit left padding and byte order as parse_uri')
-    fm = [c.value for c in ast.walk(si.node) if isinstance(c, ast.Constant) and isinstance(c.value, str) and c.value.startswith('radio://0/{}/') and c.value.count('/') == 5]
-    ctx.inst('R4', si, 'scan-address-format', len(fm) == 3 and all(x.endswith('/{:X}') for x in fm), 'scanned URIs carry the address as upper-case hex: %s' % fm)
 
     # ---- R5 ------------------------------------------------------------------------------------------
     gl = m.func(CR, 'get_link_driver')
